@@ -437,6 +437,26 @@ pub fn generate(seed: u64) -> Config {
         queries.push(gen_query(&mut rng, e, per_word));
     }
     queries.push(gen_query(&mut rng, String::new(), per_word));
+    // non-keys whose packed width sits on a machine-word boundary (63/64/65 and 127/128/129 bits'
+    // worth of symbols): random ones, and keys padded with the all-zero symbol up to exactly that
+    // width, on either side (what a packed-integer key with a sentinel bit would alias)
+    for symbols in [per_word - 1, per_word, per_word + 1, 2 * per_word - 1, 2 * per_word, 2 * per_word + 1] {
+        if rng.chance(1, 2) {
+            let c = rand_codon(&mut rng, alpha, symbols);
+            if !used.contains(&c) {
+                queries.push(gen_query(&mut rng, c, per_word));
+            }
+        }
+        if let Some((k, _)) = entries.get(rng.below(entries.len().max(1))) {
+            if k.len() < symbols {
+                let pad: String = std::iter::repeat(zero).take(symbols - k.len()).collect();
+                let c = if rng.chance(2, 3) { format!("{k}{pad}") } else { format!("{pad}{k}") };
+                if !used.contains(&c) {
+                    queries.push(gen_query(&mut rng, c, per_word));
+                }
+            }
+        }
+    }
     for a in AMINO_LETTERS {
         queries.push(Query::Codon { amino: (*a as char).to_string() });
     }
